@@ -173,6 +173,8 @@ def r2(R2, cfg, F):
     allowed = {'<%s as anycache::AssetMap>::%s' % (m, f) for m in MAPS for f in ('get', 'insert')}
     for c in sites:
         b = c.body
+        if F.written_in_place(b):
+            continue    # e.g. the closure of `.map(|e| ..)`: decided where it is expanded, with its real argument
         where = b.path in allowed
         roots = b.call_roots(c.args[0], passthrough=PT_ENTRY_REF)
         names = sorted({r.callee.best for r in roots if r.callee})
